@@ -6,6 +6,7 @@ import (
 	"fmt"
 	"io"
 	"net/url"
+	"regexp"
 	"strings"
 	"testing"
 	"unicode/utf8"
@@ -793,7 +794,18 @@ type nqBytesCase struct {
 	Data []byte
 }
 
-func checkStatementConsistent(st *rdf.Statement, src string) *vk.Failure {
+// a blank node label that contains "_:" (legal) triggers the known
+// object/graph-label split of gonum's grammar
+var blankSplit = regexp.MustCompile(`_:[^ \t<>"]*_:`)
+
+func checkStatementConsistent(st *rdf.Statement, src string) (f *vk.Failure) {
+	if blankSplit.MatchString(src) {
+		defer func() {
+			if f != nil && !strings.HasPrefix(f.Key, "parts-panics") {
+				f.Key += "-blank-label-split"
+			}
+		}()
+	}
 	text := st.String()
 	again, err := rdf.ParseNQuad(text)
 	if err != nil {
